@@ -46,7 +46,8 @@ BIN = os.path.join(TARGET, "release", "flounder_replay")
 NATIVE = {
     "C01": [("movegen", ["--what=legal", "--walks=150", "--plies=30"], ["--what=legal", "--walks=1500", "--plies=60"]),
             ("movegen-small", ["--secs=20"], ["--secs=600"])],
-    "C02": [("movegen", ["--what=make", "--walks=100", "--plies=30"], ["--what=make", "--walks=800", "--plies=60"])],
+    "C02": [("movegen", ["--what=make", "--walks=100", "--plies=30"], ["--what=make", "--walks=800", "--plies=60"]),
+            ("movegen-small", ["--what=make", "--secs=16"], ["--what=make", "--secs=300"])],
     "C17": [("movegen", ["--what=quiescence", "--walks=150", "--plies=30"], ["--what=quiescence", "--walks=1500", "--plies=60"])],
     "C15": [("tt-seq", ["--len=4", "--bulk=1300000"], ["--len=5", "--bulk=6000000"])],
     "C11": [("hash-components", [], [])],
